@@ -1,2 +1,99 @@
 import DuneVerif.Common.Proto
-def main : IO Unit := DV.runDriver fun _ => "bad-op"
+import DuneVerif.Model.C06
+/-! line-protocol driver for C06 (format: see harness/mpi_c06.cc)
+
+  c06 P=<np> B=<items> mode=<f|v> f=<n> ty=<l|p> dirs=<f|b|fb|..> : E p q [..] [..];S p [..];...
+
+answer: `r0{q:(idx:[items],..) q':(..) | <second call>} r1{..} ..` -/
+open DV DV.C06
+
+structure Seg where
+  isE : Bool
+  p : Nat
+  q : Nat
+  a : List Nat
+  b : List Nat
+
+def kv? (key tok : String) : Option String :=
+  let pre := (key ++ "=").toList
+  let cs := tok.toList
+  if cs.take pre.length == pre then some (String.ofList (cs.drop pre.length)) else none
+
+def parseSeg? (P B : Nat) (s : String) : Option (Option Seg) :=
+  match tokens s with
+  | [] => some none
+  | ["E", p, q, a, b] => do
+    let p ← p.toNat?
+    let q ← q.toNat?
+    let a ← parseNatList? a
+    let b ← parseNatList? b
+    if p < P ∧ q < P ∧ a.length = b.length ∧ a.all (· < 4096) ∧ b.all (· < 4096) then
+      some (some ⟨true, p, q, a, b⟩) else none
+  | ["S", p, s] => do
+    let p ← p.toNat?
+    let s ← parseNatList? s
+    if p < P ∧ s.all (· ≤ B) then some (some ⟨false, p, 0, s, []⟩) else none
+  | _ => none
+
+def itemValue (p i j : Nat) : Nat := ((p + 1) * 4096 + i) * 65536 + j
+
+def insertSorted (x : Nat) : List Nat → List Nat
+  | [] => [x]
+  | y :: ys => if x < y then x :: y :: ys else if x = y then y :: ys else y :: insertSorted x ys
+
+def rankData (segs : List Seg) (fixed : Bool) (f : Nat) (p : Nat) : RankData Nat :=
+  let keys := segs.foldl (fun acc s =>
+    if s.isE then
+      let acc := if s.p = p then insertSorted s.q acc else acc
+      if s.q = p then insertSorted s.p acc else acc
+    else acc) []
+  let imap := keys.map fun n =>
+    { rank := n,
+      first := (segs.filter (fun s => s.isE && s.p == p && s.q == n)).flatMap (·.a),
+      second := (segs.filter (fun s => s.isE && s.p == n && s.q == p)).flatMap (·.b) : IfaceEntry }
+  -- the last S segment of the rank wins
+  let sizes := (segs.filter (fun s => !s.isE && s.p == p)).getLast?.map (·.a) |>.getD []
+  let sizeOf := fun i => if fixed then f else sizes.getD i 0
+  { imap, handle := ⟨fixed, fun i => (List.range (sizeOf i)).map (itemValue p i)⟩ }
+
+def showCall (c : Call Nat) : String := toString c.index ++ ":" ++ showList c.items
+
+def showRank (B : Nat) (ranks : List (RankData Nat)) (q : Nat) (fwd : Bool) : String :=
+  match ranks[q]? with
+  | none => "?"
+  | some rd =>
+    " ".intercalate (rd.imap.map fun e =>
+      match receiveFrom true B fwd ranks q e with
+      | none => toString e.rank ++ ":ASYMMETRIC"
+      | some r =>
+        if r.returns then
+          toString e.rank ++ ":(" ++ ",".intercalate ((r.calls.filter (·.count != 0)).map showCall) ++ ")"
+        else toString e.rank ++ ":HANG")
+
+def handle (line : String) : String :=
+  let (head, body) :=
+    match line.splitOn " : " with
+    | [h] => (h, "")
+    | h :: rest => (h, " : ".intercalate rest)
+    | [] => ("", "")
+  match tokens head with
+  | ["c06", p, b, mode, f, ty, dirs] =>
+    match (kv? "P" p).bind (·.toNat?), (kv? "B" b).bind (·.toNat?), kv? "mode" mode, (kv? "f" f).bind (·.toNat?),
+          kv? "ty" ty, kv? "dirs" dirs with
+    | some P, some B, some mode, some f, some ty, some dirs =>
+      let fixed := mode == "f"
+      if (mode != "f" && mode != "v") || (ty != "l" && ty != "p") || P = 0 || P > 64 || B = 0 || f = 0
+         || (fixed && f > B) || dirs.isEmpty || !(dirs.toList.all fun c => c == 'f' || c == 'b') then "bad-op"
+      else
+        match (body.splitOn ";").mapM (parseSeg? P B) with
+        | none => "bad-op"
+        | some segs =>
+          let segs := segs.filterMap id
+          let ranks := (List.range P).map (rankData segs fixed f)
+          " ".intercalate ((List.range P).map fun q =>
+            "r" ++ toString q ++ "{" ++
+              " | ".intercalate (dirs.toList.map fun d => showRank B ranks q (d == 'f')) ++ "}")
+    | _, _, _, _, _, _ => "bad-op"
+  | _ => "bad-op"
+
+def main : IO Unit := runDriver handle
